@@ -22,8 +22,9 @@ type Full struct {
 type FullOpts struct {
 	Nodes      int
 	MaxRetrans uint8
-	Retrans    time.Duration // retransmission timeout of UPF-initiated requests (default: an hour, no real timer fires)
-	Gtpu       bool          // bind the re-injection socket on the UPF address, port 2152
+	Retrans    time.Duration  // retransmission timeout of UPF-initiated requests (default: an hour, no real timer fires)
+	Gtpu       bool           // bind the re-injection socket on the UPF address, port 2152
+	NodeIDs    map[int]string // see stack.Opts.NodeIDs
 }
 
 func NewFull(o FullOpts) (*Full, error) {
@@ -40,7 +41,7 @@ func NewFull(o FullOpts) (*Full, error) {
 	if err != nil {
 		return nil, err
 	}
-	s, err := stack.New(stack.Opts{Driver: d.G, Nodes: o.Nodes, MaxRetrans: o.MaxRetrans, Retrans: o.Retrans})
+	s, err := stack.New(stack.Opts{Driver: d.G, Nodes: o.Nodes, MaxRetrans: o.MaxRetrans, Retrans: o.Retrans, NodeIDs: o.NodeIDs})
 	if err != nil {
 		d.Close()
 		return nil, err
